@@ -472,13 +472,15 @@ Fixpoint read_union_loop (g : nat) (fs : list (N * ufield)) (cm : list bytes) (t
                    ret {| u_msg := None;
                           u_struct := Some {| s_name := s_name st; s_comment := join_nl cm; s_fields := s_fields st; s_opcode := 0; s_readonly := false |};
                           u_tags := tags; u_depmsg := depmsg; u_dep := dep |}) ;;
-          p_next ;;; skip_eol_comments g' ;;; opt_newline ;;;
+          b3 <- p_next ;; if negb b3 then fail else
+          skip_eol_comments g' ;;; opt_newline ;;;
           read_union_loop g' (fs ++ [(i, uf)]) [] [] [] false
       end
     else if N.eqb k kOpenSq then
       if dep then fail else m <- read_deprecated ;; read_union_loop g' fs cm tags m true
     else if N.eqb k kBlockC then read_union_loop g' fs (cm ++ [block_text t]) tags depmsg dep
     else if N.eqb k kLineC then let c := sanitize t in read_union_loop g' fs (cm ++ [c]) (add_tag tags c) depmsg dep
+    else if kin k [6; 7; 8; 13; 14; 5; 20]%N then fail          (* a definition keyword: the union was not closed *)
     else read_union_loop g' fs cm tags depmsg dep
   end.
 Definition read_union (g : nat) : M union_ :=
